@@ -101,6 +101,13 @@ type Input struct {
 	Cfgs        []BConfIn `json:"cfgs"`
 	Relays      []RelayIn `json:"relays"`
 	Tags        []string  `json:"tags,omitempty"`
+	// which auction: slot auctionSlot + SlotOff, parent hash and proposer key by number (0 = the usual one)
+	SlotOff  uint64 `json:"slot_off,omitempty"`
+	Parent   uint64 `json:"parent,omitempty"`
+	Proposer uint64 `json:"proposer,omitempty"`
+	// auctions run before this one on the SAME strategy instance and blockrelay service (their
+	// strategy parameters and builder configurations are this auction's: fixed at construction)
+	Before []Input `json:"before,omitempty"`
 }
 
 func (in *Input) cutoff() int64 {
@@ -244,10 +251,17 @@ func makeBid(b *BidIn, slotStartUnix int64, domain phase0.Domain) *builderspec.V
 // ---------------------------------------------------------------------------------------------
 // Mock relay clients.
 
+// call is one request that reached a relay, as the relay sees it: T is the instant (ms since the
+// auction started) at which the relay's answer was ready = the instant the request arrived + the
+// scripted latency.  Dropped: the requester (vouch) had ended the request's context before that
+// instant (the real HTTP builder client aborts the request then), at HungUp ms; the answer was never
+// delivered.  Requests that the relay never answers (hang, script exhausted) are not logged.
 type call struct {
-	T     int64 // ms since the auction started
-	Relay int
-	Call  int
+	T       int64
+	Relay   int
+	Call    int
+	Dropped bool  `json:",omitempty"`
+	HungUp  int64 `json:",omitempty"`
 }
 
 type callLog struct {
@@ -275,9 +289,9 @@ type relayMock struct {
 	n         int
 }
 
-func (m *relayMock) Name() string               { return fmt.Sprintf("relay-%d", m.idx) }
-func (m *relayMock) Address() string            { return m.addr }
-func (m *relayMock) Pubkey() *phase0.BLSPubKey   { return m.adv }
+func (m *relayMock) Name() string              { return fmt.Sprintf("relay-%d", m.idx) }
+func (m *relayMock) Address() string           { return m.addr }
+func (m *relayMock) Pubkey() *phase0.BLSPubKey { return m.adv }
 func (m *relayMock) answer(ctx context.Context) (*builderapi.Response[*builderspec.VersionedSignedBuilderBid], error) {
 	m.mu.Lock()
 	k := m.n
@@ -288,14 +302,17 @@ func (m *relayMock) answer(ctx context.Context) (*builderapi.Response[*buildersp
 		return nil, ctx.Err()
 	}
 	s := m.script[k]
+	arrived := time.Since(m.start)
 	timer := time.NewTimer(s.lat)
 	if m.ignoreCtx {
 		<-timer.C
 	} else {
+		// like the real HTTP client: the request is aborted when its context ends
 		select {
 		case <-timer.C:
 		case <-ctx.Done():
 			timer.Stop()
+			m.log.add(call{T: (arrived + s.lat).Milliseconds(), Relay: m.idx, Call: k, Dropped: true, HungUp: time.Since(m.start).Milliseconds()})
 			return nil, ctx.Err()
 		}
 	}
@@ -337,7 +354,9 @@ func (c bidOnlyClient) BuilderBid(ctx context.Context, _ *builderapi.BuilderBidO
 type plainClient struct{ *relayMock }
 
 // execution configuration handing out the scripted relay list
-type execConfig struct{ relays []*beaconblockproposer.RelayConfig }
+type execConfig struct {
+	relays []*beaconblockproposer.RelayConfig
+}
 
 func (e *execConfig) ProposerConfig(context.Context, e2wtypes.Account, phase0.BLSPubKey, bellatrix.ExecutionAddress, uint64) (*beaconblockproposer.ProposerConfig, error) {
 	return &beaconblockproposer.ProposerConfig{FeeRecipient: bellatrix.ExecutionAddress{0x01}, Relays: e.relays}, nil
@@ -368,6 +387,7 @@ type Obs struct {
 	Elapsed    int64       `json:"elapsed_ms"`
 	Served     []*uint64   `json:"served"`
 	Calls      []call      `json:"calls"`
+	Stuck      bool        `json:"stuck,omitempty"` // goroutines of the call were left blocked for good
 	Note       string      `json:"note,omitempty"`
 }
 
@@ -383,60 +403,87 @@ func relayAddress(i int, kind string) string {
 	return fmt.Sprintf("http://relay-%d.c09.invalid:18550", i)
 }
 
+// runCase runs the auction of the case -- after the auctions of in.Before, on the same strategy
+// instance and the same blockrelay service -- and returns what was observed of it.
 func runCase(t *testing.T, in Input) Obs {
-	var obs Obs
-	lg := &callLog{}
+	rounds := append(append([]Input{}, in.Before...), in)
+	return runSeq(t, rounds)[len(rounds)-1]
+}
+
+// normalise gives every earlier auction of a sequence the parameters that are fixed when the
+// strategy and the blockrelay service are constructed (one instance serves them all).
+func normalise(rounds []Input) {
+	last := rounds[len(rounds)-1]
+	for j := range rounds {
+		r := &rounds[j]
+		r.Strategy, r.Timeout, r.Deadline, r.Gap, r.Trace, r.Cfgs = last.Strategy, last.Timeout, last.Deadline, last.Gap, last.Trace, last.Cfgs
+		r.Before = nil
+	}
+}
+
+// runSeq runs the auctions one after the other on ONE strategy instance and ONE blockrelay service
+// (its bid cache, the strategy's parsed-key cache and whatever else an instance keeps), each with its
+// own relays' behaviour, slot / parent / proposer, in one bubble of fake time.
+func runSeq(t *testing.T, rounds []Input) (obss []Obs) {
+	normalise(rounds)
+	obss = make([]Obs, len(rounds))
+	logs := make([]*callLog, len(rounds))
+	for i := range logs {
+		logs[i] = &callLog{}
+	}
+	finish := func() {
+		for i := range obss {
+			finishCalls(&obss[i], logs[i])
+		}
+	}
+	// Goroutines that a call leaves blocked for good (say, relay goroutines sending on a channel
+	// nobody reads any more) make synctest.Test panic with "deadlock" once everything else has
+	// finished: that is reported as an observation of the case, not as the end of the test binary.
+	defer func() {
+		if r := recover(); r != nil {
+			msg := strings.SplitN(fmt.Sprint(r), "\n", 2)[0]
+			if !strings.Contains(msg, "deadlock") {
+				panic(r)
+			}
+			for i := range obss {
+				obss[i].Stuck = true
+				obss[i].Note += "synctest: " + msg + "; "
+			}
+			finish()
+		}
+	}()
+	runBubble(t, rounds, obss, logs)
+	finish()
+	return obss
+}
+
+func finishCalls(obs *Obs, lg *callLog) {
+	lg.mu.Lock()
+	obs.Calls = append(obs.Calls[:0], lg.calls...)
+	lg.mu.Unlock()
+	sort.SliceStable(obs.Calls, func(i, j int) bool {
+		if obs.Calls[i].T != obs.Calls[j].T {
+			return obs.Calls[i].T < obs.Calls[j].T
+		}
+		return obs.Calls[i].Relay < obs.Calls[j].Relay
+	})
+}
+
+func runBubble(t *testing.T, rounds []Input, obss []Obs, logs []*callLog) {
+	main := rounds[len(rounds)-1]
 	level := zerolog.Disabled
-	if in.Trace {
+	if main.Trace {
 		level = zerolog.TraceLevel
 	}
 	synctest.Test(t, func(t *testing.T) {
-		ctx, cancel := context.WithCancel(context.Background())
-		defer cancel()
-		start := time.Now()
-		slotStart := start.Add(time.Duration(in.SlotStartIn) * time.Millisecond)
-		if in.Strategy == "best" {
-			slotStart = start.Add(3 * time.Second)
-		}
-		chainTime := &mocks.ChainTime{Genesis: slotStart.Add(-auctionSlot * 12 * time.Second), SlotDuration: 12 * time.Second, SPE: 32}
-		domain, _ := mock.NewDomainProvider().GenesisDomain(ctx, phase0.DomainType{0x00, 0x00, 0x00, 0x01})
-
-		// relays
+		root, cancelRoot := context.WithCancel(context.Background())
+		defer cancelRoot()
+		chainTime := &mocks.ChainTime{Genesis: time.Now().Add(-auctionSlot * 12 * time.Second), SlotDuration: 12 * time.Second, SPE: 32}
+		domain, _ := mock.NewDomainProvider().GenesisDomain(root, phase0.DomainType{0x00, 0x00, 0x00, 0x01})
 		util.ResetBuilderClientsC09()
-		bidUID := map[*builderspec.VersionedSignedBuilderBid]uint64{}
-		addrIdx := map[string]uint64{}
-		relayConfigs := make([]*beaconblockproposer.RelayConfig, 0, len(in.Relays))
-		for i := range in.Relays {
-			r := &in.Relays[i]
-			m := &relayMock{idx: i, addr: relayAddress(i, r.Kind), adv: relayPubkey(r.AdvKey), ignoreCtx: r.IgnoreCtx, start: start, log: lg}
-			for k := range r.Script {
-				s := scripted{lat: time.Duration(r.Script[k].Lat) * time.Millisecond, kind: r.Script[k].Kind}
-				if s.kind == "bid" {
-					s.bid = makeBid(r.Script[k].Bid, chainTime.StartOfSlot(auctionSlot).Unix(), domain)
-					bidUID[s.bid] = uid(i, k)
-				}
-				m.script = append(m.script, s)
-			}
-			addrIdx[m.addr] = uint64(i)
-			switch r.Kind {
-			case "full":
-				util.InjectBuilderClientC09(m.addr, fullClient{m})
-			case "nounblind":
-				util.InjectBuilderClientC09(m.addr, bidOnlyClient{m})
-			case "nobid":
-				util.InjectBuilderClientC09(m.addr, plainClient{m})
-			}
-			minValue, err := decimal.NewFromString(r.Min)
-			if err != nil {
-				t.Fatalf("bad minimum %q", r.Min)
-			}
-			relayConfigs = append(relayConfigs, &beaconblockproposer.RelayConfig{
-				Address: m.addr, PublicKey: relayPubkey(r.CfgKey), FeeRecipient: bellatrix.ExecutionAddress{0x01},
-				GasLimit: 30000000, Grace: time.Duration(r.Grace) * time.Millisecond, MinValue: minValue,
-			})
-		}
+
 		builderConfigs := map[phase0.BLSPubKey]*blockrelay.BuilderConfig{}
-		for _, c := range in.Cfgs {
+		for _, c := range main.Cfgs {
 			bc := &blockrelay.BuilderConfig{Category: catNames[c.Cat%uint64(len(catNames))]}
 			if c.Offset != nil {
 				bc.Offset = bigOf(*c.Offset)
@@ -447,128 +494,179 @@ func runCase(t *testing.T, in Input) Obs {
 			builderConfigs[builderPubkey(c.Builder)] = bc
 		}
 
-		// the strategy
+		// the strategy: one instance for all the auctions
 		var strat builderbid.Provider
 		var err error
-		if in.Strategy == "best" {
-			strat, err = bestbid.New(ctx, bestbid.WithLogLevel(level), bestbid.WithMonitor(nullmetrics.New()),
+		if main.Strategy == "best" {
+			strat, err = bestbid.New(root, bestbid.WithLogLevel(level), bestbid.WithMonitor(nullmetrics.New()),
 				bestbid.WithSpecProvider(mock.NewSpecProvider()), bestbid.WithDomainProvider(mock.NewDomainProvider()),
-				bestbid.WithChainTime(chainTime), bestbid.WithTimeout(time.Duration(in.Timeout)*time.Millisecond),
+				bestbid.WithChainTime(chainTime), bestbid.WithTimeout(time.Duration(main.Timeout)*time.Millisecond),
 				bestbid.WithReleaseVersion("verif"))
 		} else {
-			strat, err = deadlinebid.New(ctx, deadlinebid.WithLogLevel(level), deadlinebid.WithMonitor(nullmetrics.New()),
+			strat, err = deadlinebid.New(root, deadlinebid.WithLogLevel(level), deadlinebid.WithMonitor(nullmetrics.New()),
 				deadlinebid.WithSpecProvider(mock.NewSpecProvider()), deadlinebid.WithDomainProvider(mock.NewDomainProvider()),
-				deadlinebid.WithChainTime(chainTime), deadlinebid.WithDeadline(time.Duration(in.Deadline)*time.Millisecond),
-				deadlinebid.WithBidGap(time.Duration(in.Gap)*time.Millisecond), deadlinebid.WithReleaseVersion("verif"))
+				deadlinebid.WithChainTime(chainTime), deadlinebid.WithDeadline(time.Duration(main.Deadline)*time.Millisecond),
+				deadlinebid.WithBidGap(time.Duration(main.Gap)*time.Millisecond), deadlinebid.WithReleaseVersion("verif"))
 		}
 		if err != nil {
 			t.Fatalf("strategy constructor: %v", err)
 		}
+		// the blockrelay service: one instance, too; the relay list it hands out follows the auction
+		ec := &execConfig{}
+		svc := standardblockrelay.NewForVerifC09(level, mockaccountmanager.NewAccountsProvider(), ec, strat, builderConfigs)
 
-		parent := phase0.Hash32(fill32(1, 7))
-		pubkey := phase0.BLSPubKey{0xaa, 0x01}
-		var res *blockauctioneer.Results
-		serve := func(bid *builderspec.VersionedSignedBuilderBid, err error) {
-			if err != nil {
-				obs.Note += "BuilderBid error: " + err.Error() + "; "
-			}
-			if bid == nil {
-				obs.Served = append(obs.Served, nil)
-				return
-			}
-			u, ok := bidUID[bid]
-			if !ok {
-				u = 999999999 // a bid that no relay supplied
-			}
-			obs.Served = append(obs.Served, &u)
+		for j := range rounds {
+			runRound(t, root, rounds[j], &obss[j], logs[j], chainTime, domain, strat, svc, ec, builderConfigs)
 		}
-		// a call that never returns (every goroutine of the bubble blocked for good) would end the
-		// whole test binary with synctest's deadlock panic: after a day of fake time release the
-		// silent mocks instead, so that the case is reported with what the call then returns.
-		watchdog := time.AfterFunc(24*time.Hour, func() {
-			obs.Note += "watchdog: call still running after 24h of fake time; "
-			cancel()
+	})
+}
+
+func runRound(t *testing.T, root context.Context, in Input, obs *Obs, lg *callLog, chainTime *mocks.ChainTime, domain phase0.Domain,
+	strat builderbid.Provider, svc *standardblockrelay.Service, ec *execConfig, builderConfigs map[phase0.BLSPubKey]*blockrelay.BuilderConfig) {
+	ctx, cancel := context.WithCancel(root)
+	defer cancel()
+	start := time.Now()
+	slot := phase0.Slot(auctionSlot + in.SlotOff)
+	slotStart := start.Add(time.Duration(in.SlotStartIn) * time.Millisecond)
+	if in.Strategy == "best" {
+		slotStart = start.Add(3 * time.Second)
+	}
+	// nothing of the earlier auctions is running any more: the chain's clock is set so that this
+	// auction's slot starts where the input says
+	chainTime.Genesis = slotStart.Add(-time.Duration(slot) * 12 * time.Second)
+
+	// relays: this auction's behaviour behind the same addresses
+	bidUID := map[*builderspec.VersionedSignedBuilderBid]uint64{}
+	addrIdx := map[string]uint64{}
+	relayConfigs := make([]*beaconblockproposer.RelayConfig, 0, len(in.Relays))
+	for i := range in.Relays {
+		r := &in.Relays[i]
+		m := &relayMock{idx: i, addr: relayAddress(i, r.Kind), adv: relayPubkey(r.AdvKey), ignoreCtx: r.IgnoreCtx, start: start, log: lg}
+		for k := range r.Script {
+			s := scripted{lat: time.Duration(r.Script[k].Lat) * time.Millisecond, kind: r.Script[k].Kind}
+			if s.kind == "bid" {
+				s.bid = makeBid(r.Script[k].Bid, chainTime.StartOfSlot(slot).Unix(), domain)
+				bidUID[s.bid] = uid(i, k)
+			}
+			m.script = append(m.script, s)
+		}
+		addrIdx[m.addr] = uint64(i)
+		switch r.Kind {
+		case "full":
+			util.InjectBuilderClientC09(m.addr, fullClient{m})
+		case "nounblind":
+			util.InjectBuilderClientC09(m.addr, bidOnlyClient{m})
+		case "nobid":
+			util.InjectBuilderClientC09(m.addr, plainClient{m})
+		}
+		minValue, err := decimal.NewFromString(r.Min)
+		if err != nil {
+			t.Fatalf("bad minimum %q", r.Min)
+		}
+		relayConfigs = append(relayConfigs, &beaconblockproposer.RelayConfig{
+			Address: m.addr, PublicKey: relayPubkey(r.CfgKey), FeeRecipient: bellatrix.ExecutionAddress{0x01},
+			GasLimit: 30000000, Grace: time.Duration(r.Grace) * time.Millisecond, MinValue: minValue,
 		})
-		func() {
-			defer watchdog.Stop()
-			defer func() {
-				if r := recover(); r != nil {
-					obs.Panic = true
-					obs.PanicMsg = strings.SplitN(fmt.Sprint(r), "\n", 2)[0]
-					obs.Elapsed = time.Since(start).Milliseconds()
-				}
-			}()
-			switch in.Mode {
-			case "strategy":
-				res, err = strat.BuilderBid(ctx, auctionSlot, parent, pubkey,
-					&beaconblockproposer.ProposerConfig{FeeRecipient: bellatrix.ExecutionAddress{0x01}, Relays: relayConfigs}, builderConfigs)
+	}
+	ec.relays = relayConfigs
+
+	parentID := in.Parent
+	if parentID == 0 {
+		parentID = 7
+	}
+	parent := phase0.Hash32(fill32(1, parentID))
+	pubkey := phase0.BLSPubKey{0xaa, 0x01}
+	if in.Proposer != 0 {
+		pubkey[1] = byte(in.Proposer)
+	}
+	var res *blockauctioneer.Results
+	var err error
+	serve := func(bid *builderspec.VersionedSignedBuilderBid, err error) {
+		if err != nil {
+			obs.Note += "BuilderBid error: " + err.Error() + "; "
+		}
+		if bid == nil {
+			obs.Served = append(obs.Served, nil)
+			return
+		}
+		u, ok := bidUID[bid]
+		if !ok {
+			u = 999999999 // a bid that no relay supplied in this auction
+		}
+		obs.Served = append(obs.Served, &u)
+	}
+	// a call that never returns (every goroutine of the bubble blocked for good) would end the
+	// whole test binary with synctest's deadlock panic: after a day of fake time release the
+	// silent mocks instead, so that the case is reported with what the call then returns.
+	watchdog := time.AfterFunc(24*time.Hour, func() {
+		obs.Note += "watchdog: call still running after 24h of fake time; "
+		cancel()
+	})
+	func() {
+		defer watchdog.Stop()
+		defer func() {
+			if r := recover(); r != nil {
+				obs.Panic = true
+				obs.PanicMsg = strings.SplitN(fmt.Sprint(r), "\n", 2)[0]
 				obs.Elapsed = time.Since(start).Milliseconds()
-				if err != nil {
-					obs.Note += "strategy error: " + err.Error() + "; "
-				}
-			default:
-				svc := standardblockrelay.NewForVerifC09(level, mockaccountmanager.NewAccountsProvider(),
-					&execConfig{relays: relayConfigs}, strat, builderConfigs)
-				if in.Mode == "auction" {
-					res, err = svc.AuctionBlock(ctx, auctionSlot, parent, pubkey)
-					obs.Elapsed = time.Since(start).Milliseconds()
-					if err != nil {
-						obs.Note += "AuctionBlock error: " + err.Error() + "; "
-					}
-					serve(svc.BuilderBid(ctx, auctionSlot, parent, pubkey))
-				} else {
-					bid, err := svc.BuilderBid(ctx, auctionSlot, parent, pubkey)
-					obs.Elapsed = time.Since(start).Milliseconds()
-					serve(bid, err)
-					serve(svc.BuilderBid(ctx, auctionSlot, parent, pubkey))
-				}
 			}
 		}()
-		cancel() // releases the mocks that never answer
-		// let every relay goroutine run to its end (fake time stops when this function returns)
-		time.Sleep(time.Hour)
-		synctest.Wait()
+		switch in.Mode {
+		case "strategy":
+			res, err = strat.BuilderBid(ctx, slot, parent, pubkey,
+				&beaconblockproposer.ProposerConfig{FeeRecipient: bellatrix.ExecutionAddress{0x01}, Relays: relayConfigs}, builderConfigs)
+			obs.Elapsed = time.Since(start).Milliseconds()
+			if err != nil {
+				obs.Note += "strategy error: " + err.Error() + "; "
+			}
+		case "auction":
+			res, err = svc.AuctionBlock(ctx, slot, parent, pubkey)
+			obs.Elapsed = time.Since(start).Milliseconds()
+			if err != nil {
+				obs.Note += "AuctionBlock error: " + err.Error() + "; "
+			}
+			serve(svc.BuilderBid(ctx, slot, parent, pubkey))
+		default:
+			bid, err := svc.BuilderBid(ctx, slot, parent, pubkey)
+			obs.Elapsed = time.Since(start).Milliseconds()
+			serve(bid, err)
+			serve(svc.BuilderBid(ctx, slot, parent, pubkey))
+		}
+	}()
+	cancel() // releases the mocks that never answer
+	// let every relay goroutine run to its end (fake time stops when the bubble's function returns)
+	time.Sleep(time.Hour)
+	synctest.Wait()
 
-		if res != nil {
-			obs.HasResults = true
-			partOf := func(p *blockauctioneer.Participation) PartObs {
-				po := PartObs{Score: p.Score.String(), Cat: 99, UID: 999999999}
-				for i, n := range catNames {
-					if n == p.Category {
-						po.Cat = uint64(i)
-					}
+	if res != nil {
+		obs.HasResults = true
+		partOf := func(p *blockauctioneer.Participation) PartObs {
+			po := PartObs{Score: p.Score.String(), Cat: 99, UID: 999999999}
+			for i, n := range catNames {
+				if n == p.Category {
+					po.Cat = uint64(i)
 				}
-				if u, ok := bidUID[p.Bid]; ok {
-					po.UID = u
-				}
-				return po
 			}
-			if res.WinningParticipation != nil {
-				p := partOf(res.WinningParticipation)
-				obs.Win = &p
+			if u, ok := bidUID[p.Bid]; ok {
+				po.UID = u
 			}
-			for _, p := range res.Providers {
-				obs.Providers = append(obs.Providers, addrIdx[p.Address()])
-			}
-			for _, p := range res.AllProviders {
-				obs.AllP = append(obs.AllP, addrIdx[p.Address()])
-			}
-			for a, p := range res.Participation {
-				obs.Parts = append(obs.Parts, PartEntry{Relay: addrIdx[a], Part: partOf(p)})
-			}
-			sort.Slice(obs.Parts, func(i, j int) bool { return obs.Parts[i].Relay < obs.Parts[j].Relay })
+			return po
 		}
-	})
-	lg.mu.Lock()
-	obs.Calls = append(obs.Calls, lg.calls...)
-	lg.mu.Unlock()
-	sort.SliceStable(obs.Calls, func(i, j int) bool {
-		if obs.Calls[i].T != obs.Calls[j].T {
-			return obs.Calls[i].T < obs.Calls[j].T
+		if res.WinningParticipation != nil {
+			p := partOf(res.WinningParticipation)
+			obs.Win = &p
 		}
-		return obs.Calls[i].Relay < obs.Calls[j].Relay
-	})
-	return obs
+		for _, p := range res.Providers {
+			obs.Providers = append(obs.Providers, addrIdx[p.Address()])
+		}
+		for _, p := range res.AllProviders {
+			obs.AllP = append(obs.AllP, addrIdx[p.Address()])
+		}
+		for a, p := range res.Participation {
+			obs.Parts = append(obs.Parts, PartEntry{Relay: addrIdx[a], Part: partOf(p)})
+		}
+		sort.Slice(obs.Parts, func(i, j int) bool { return obs.Parts[i].Relay < obs.Parts[j].Relay })
+	}
 }
 
 // ---------------------------------------------------------------------------------------------
@@ -648,13 +746,17 @@ func term(id uint64, in Input, obs Obs) string {
 		served = append(served, OptN(s))
 	}
 	calls := make([]string, 0, len(obs.Calls))
+	dropped := []string{}
 	for _, c := range obs.Calls {
 		calls = append(calls, "("+Z(c.T)+", "+N(uint64(c.Relay))+", "+N(uint64(c.Call))+")")
+		if c.Dropped {
+			dropped = append(dropped, "("+Z(c.T)+", "+N(uint64(c.Relay))+", "+N(uint64(c.Call))+")")
+		}
 	}
 	return Record("c_id", N(id), "c_strat", strat, "c_mode", mode, "c_cfgs", List(cfgs), "c_relays", List(relays),
 		"c_panic", Bool(obs.Panic), "c_has_results", Bool(obs.HasResults), "c_win", win,
 		"c_providers", nList(obs.Providers), "c_allp", nList(obs.AllP), "c_parts", List(parts),
-		"c_elapsed", Z(obs.Elapsed), "c_served", List(served), "c_calls", List(calls))
+		"c_elapsed", Z(obs.Elapsed), "c_served", List(served), "c_calls", List(calls), "c_dropped", List(dropped), "c_stuck", Bool(obs.Stuck))
 }
 
 // ---------------------------------------------------------------------------------------------
@@ -1149,6 +1251,46 @@ func gen(r *Rand, tier string) Input {
 			rel.Script[k].Bid = b
 		}
 	}
+	// slow but in time: one relay uses up most of the time there is (a long latency, a long grace
+	// period, or a slow later call of the deadline strategy) and still has its answer ready before
+	// the cut-off, with the most valuable bid of the auction; it honours the request's context like
+	// the real HTTP client, so a request that vouch gives up early is lost
+	if nRelays > 0 && m > 6 && r.Chance(24, 100) {
+		i := r.Intn(nRelays)
+		rel := &in.Relays[i]
+		if len(rel.Script) > 0 {
+			residue := (rel.Grace + rel.Script[0].Lat) % 16
+			b := &BidIn{Value: val(base * 5), Builder: uint64(r.Range(1, nBuilders)), Header: headers[1], Signer: effKey(rel)}
+			if b.Signer == 0 {
+				b.Signer = 1
+			}
+			rel.IgnoreCtx = false
+			k := 0
+			n := int64(r.Range(int(m)/2+1, int(m)-1)) // answer ready at 16 n + residue, after half of the time
+			switch v := r.Intn(10); {
+			case v < 4: // long latency
+				rel.Grace = 16 * int64(pick(r, 0, 0, 1, 2))
+				rel.Script[0].Lat = 16*n + residue - rel.Grace
+				in.Tags = append(in.Tags, "slow-in-time:latency")
+			case v < 7: // long grace period
+				rel.Grace = 16 * int64(r.Range(int(m)/4, int(n)-1))
+				rel.Script[0].Lat = 16*n + residue - rel.Grace
+				in.Tags = append(in.Tags, "slow-in-time:grace")
+			default: // deadline: a later call is slow (in time or not, depending on the calls before)
+				if in.Strategy != "best" && len(rel.Script) > 1 {
+					k = r.Range(1, len(rel.Script)-1)
+					rel.Script[k].Lat = 16 * int64(r.Range(int(m)/3, int(m)))
+					in.Tags = append(in.Tags, "slow-in-time:later-call")
+				} else {
+					rel.Grace = 0
+					rel.Script[0].Lat = 16*n + residue
+					in.Tags = append(in.Tags, "slow-in-time:latency")
+				}
+			}
+			rel.Script[k].Kind = "bid"
+			rel.Script[k].Bid = b
+		}
+	}
 	return in
 }
 
@@ -1159,69 +1301,205 @@ func inputKey(in Input) string {
 	return string(js)
 }
 
+// genSeq: 2-4 auctions for one strategy instance and one blockrelay service.  The parameters fixed at
+// construction (strategy, timeouts, bid gap, log level, builder configurations) are those of the first
+// auction; every auction has its own relays' behaviour (independent, or a variation of the previous
+// auction: advertised keys changed, bids re-signed or not, values moved, a relay now failing or
+// silent), its own cut-off, and a slot / parent / proposer that repeats or differs.  An auction
+// started through BuilderBid on an empty cache (mode query), and one without relays (which caches
+// nothing), is given a key not used before: for a key used before the service legitimately answers
+// from its cache.
+func genSeq(r *Rand, tier string) []Input {
+	first := gen(r.Fork(), tier)
+	n := r.Range(2, 4)
+	rounds := []Input{first}
+	type key struct{ s, p, q uint64 }
+	used := map[key]bool{{0, 0, 0}: true}
+	for j := 1; j < n; j++ {
+		var nx Input
+		if r.Chance(45, 100) {
+			nx = gen(r.Fork(), tier)
+			for nx.Strategy != first.Strategy {
+				nx = gen(r.Fork(), tier)
+			}
+			if nx.Strategy != "best" {
+				nx.SlotStartIn = nx.SlotStartIn + nx.Deadline - first.Deadline // keeps the auction's own cut-off instant
+			}
+			nx.Tags = append(nx.Tags, "sequence:independent-auction")
+		} else {
+			js, _ := json.Marshal(rounds[j-1])
+			_ = json.Unmarshal(js, &nx)
+			nx.Tags = []string{"sequence:variation-of-previous"}
+			for i := range nx.Relays {
+				rel := &nx.Relays[i]
+				if r.Chance(50, 100) { // the relay advertises another key (or none) now
+					old := effKey(rel)
+					rel.AdvKey = pick(r, uint64(0), 1, 2, 3)
+					if r.Chance(15, 100) {
+						rel.CfgKey = pick(r, uint64(0), 1, 2, 3)
+					}
+					if k := effKey(rel); k != old && r.Chance(80, 100) { // ... and signs with it
+						for c := range rel.Script {
+							if b := rel.Script[c].Bid; b != nil && b.Signer == old {
+								b.Signer = k
+								if k == 0 {
+									b.Signer = 1
+								}
+							}
+						}
+					}
+				}
+				for c := range rel.Script {
+					sc := &rel.Script[c]
+					switch v := r.Intn(10); {
+					case v < 4 && sc.Bid != nil: // other values
+						sc.Bid.Value = new(big.Int).Add(bigOf(sc.Bid.Value), big.NewInt(int64(r.Range(1, 9)))).String()
+						sc.Bid.Header = sc.Bid.Header%90 + 1
+					case v == 4 && sc.Bid != nil:
+						sc.Kind, sc.Bid = pick(r, "err", "hang", "nil"), nil
+					case v == 5 && sc.Bid == nil && c > 0 && rel.Script[c-1].Bid != nil: // the relay has recovered
+						cp := *rel.Script[c-1].Bid
+						cp.Value = new(big.Int).Add(bigOf(cp.Value), big.NewInt(int64(r.Range(1, 9)))).String()
+						sc.Kind, sc.Bid = "bid", &cp
+					}
+				}
+			}
+		}
+		nx.Strategy, nx.Timeout, nx.Deadline, nx.Gap, nx.Trace, nx.Cfgs = first.Strategy, first.Timeout, first.Deadline, first.Gap, first.Trace, first.Cfgs
+		switch k := r.Intn(100); {
+		case k < 40:
+			nx.Mode = "strategy"
+		case k < 75:
+			nx.Mode = "auction"
+		default:
+			nx.Mode = "query"
+		}
+		nx.SlotOff, nx.Parent, nx.Proposer = pick(r, uint64(0), 0, 0, 1, 2, 70), pick(r, uint64(0), 0, 8, 9), pick(r, uint64(0), 0, 2)
+		if r.Chance(40, 100) { // the very slot / parent / proposer of an earlier auction
+			e := rounds[r.Intn(len(rounds))]
+			nx.SlotOff, nx.Parent, nx.Proposer = e.SlotOff, e.Parent, e.Proposer
+		}
+		k := key{nx.SlotOff, nx.Parent, nx.Proposer}
+		if (nx.Mode == "query" || len(nx.Relays) == 0) && used[k] { // an auction without relays caches nothing: the earlier entry stays
+
+			nx.Parent = uint64(100 + j)
+			k.p = nx.Parent
+		}
+		if used[k] {
+			nx.Tags = append(nx.Tags, "sequence:same-key-as-earlier-auction")
+		}
+		used[k] = true
+		rounds = append(rounds, nx)
+	}
+	return rounds
+}
+
 func TestC09(t *testing.T) {
 	zerologger.Logger = zerolog.New(io.Discard)
 	col := NewCollector("C09", "Check.C09",
-		"one relay auction per case (0-6 relays; best or deadline strategy; called directly, through AuctionBlock+BuilderBid, or through BuilderBid on an empty cache); "+
+		"one relay auction per case (0-6 relays; best or deadline strategy; called directly, through AuctionBlock+BuilderBid, or through BuilderBid on an empty cache; "+
+			"alone on a fresh strategy/blockrelay instance or as the 2nd-4th auction on a used one); "+
 			"non-trivial = at least one scripted bid reached vouch before the cut-off (so that eligibility and scoring were decided); distinct by full input text")
 	n := EnvInt("VERIF_N", 600)
 	tier := "quick"
 	if v := strings.TrimSpace(os.Getenv("VERIF_TIER")); v != "" {
 		tier = v
 	}
-	var ins []Input
+	// a job: auctions run in a row on one instance; those from index `from` on become cases
+	type job struct {
+		rounds []Input
+		from   int
+	}
+	var jobs []job
 	for _, in := range LoadInputs[Input]("C09") {
 		in.Tags = append(in.Tags, "corpus")
-		ins = append(ins, in)
+		rounds := append(append([]Input{}, in.Before...), in)
+		jobs = append(jobs, job{rounds: rounds, from: len(rounds) - 1})
 	}
 	rng := NewRand(Seed())
-	for i := 0; i < n; i++ {
-		ins = append(ins, gen(rng.Fork(), tier))
+	for i := 0; i < n; {
+		if i%8 == 7 && i+4 <= n { // about one case in four is an auction of a sequence
+			rounds := genSeq(rng.Fork(), tier)
+			jobs = append(jobs, job{rounds: rounds})
+			i += len(rounds)
+			continue
+		}
+		jobs = append(jobs, job{rounds: []Input{gen(rng.Fork(), tier)}})
+		i++
 	}
-	for _, in := range ins {
-		if len(in.Relays) > 15 {
-			in.Relays = in.Relays[:15]
-		}
-		obs := runCase(t, in)
-		tg := tags(&in)
-		cut := in.cutoff()
-		nontrivial := false
-		for _, c := range obs.Calls {
-			if c.T < cut && c.Relay < len(in.Relays) && c.Call < len(in.Relays[c.Relay].Script) && in.Relays[c.Relay].Script[c.Call].Kind == "bid" {
-				nontrivial = true
-			}
-			if c.T >= cut {
-				col.Count("answer:late")
-			} else {
-				col.Count("answer:on-time")
+	for _, jb := range jobs {
+		for j := range jb.rounds {
+			if len(jb.rounds[j].Relays) > 15 {
+				jb.rounds[j].Relays = jb.rounds[j].Relays[:15]
 			}
 		}
-		// instants shared by several answers: arrival order is Go's choice
-		for i := 1; i < len(obs.Calls); i++ {
-			if obs.Calls[i].T == obs.Calls[i-1].T && obs.Calls[i].T < cut {
-				tg = append(tg, "tied-arrivals")
-				break
+		run := make([]Input, len(jb.rounds))
+		copy(run, jb.rounds)
+		obss := runSeq(t, run)
+		if len(jb.rounds) > 1 {
+			col.Count(fmt.Sprintf("sequence-of:%d", len(jb.rounds)))
+		}
+		for j := jb.from; j < len(run); j++ {
+			in := run[j] // normalised: carries the parameters of the instance
+			in.Tags = jb.rounds[j].Tags
+			if j > 0 {
+				in.Before = append([]Input{}, run[:j]...)
 			}
+			emit(col, in, obss[j], j)
 		}
-		col.Count(fmt.Sprintf("relays:%d", len(in.Relays)))
-		col.Count("strategy:" + in.Strategy)
-		col.Count("mode:" + in.Mode)
-		switch {
-		case obs.Panic:
-			col.Count("outcome:panic")
-		case obs.Win != nil || (len(obs.Served) > 0 && obs.Served[0] != nil):
-			col.Count("outcome:winner")
-		default:
-			col.Count("outcome:no-winner")
-		}
-		if len(obs.Providers) > 1 {
-			col.Count("outcome:several-providers")
-		}
-		id := col.NextID()
-		col.Add(Case{Term: term(id, in, obs), Key: inputKey(in), Nontrivial: nontrivial, Tags: tg,
-			Sample: map[string]any{"input": in, "observed": obs}})
 	}
 	if err := col.Flush(); err != nil {
 		t.Fatal(err)
 	}
+}
+
+func emit(col *Collector, in Input, obs Obs, round int) {
+	tg := tags(&in)
+	if round > 0 {
+		tg = append(tg, "sequence", fmt.Sprintf("sequence:auction-%d-on-the-instance", round+1))
+		col.Count("sequence:later-auction")
+	}
+	cut := in.cutoff()
+	nontrivial := false
+	for _, c := range obs.Calls {
+		if c.T < cut && !c.Dropped && c.Relay < len(in.Relays) && c.Call < len(in.Relays[c.Relay].Script) && in.Relays[c.Relay].Script[c.Call].Kind == "bid" {
+			nontrivial = true
+		}
+		if c.Dropped {
+			col.Count("answer:dropped-by-requester")
+			if c.T < cut {
+				col.Count("answer:dropped-before-cut-off")
+			}
+		} else if c.T >= cut {
+			col.Count("answer:late")
+		} else {
+			col.Count("answer:on-time")
+		}
+	}
+	// instants shared by several answers: arrival order is Go's choice
+	for i := 1; i < len(obs.Calls); i++ {
+		if obs.Calls[i].T == obs.Calls[i-1].T && obs.Calls[i].T < cut {
+			tg = append(tg, "tied-arrivals")
+			break
+		}
+	}
+	col.Count(fmt.Sprintf("relays:%d", len(in.Relays)))
+	col.Count("strategy:" + in.Strategy)
+	col.Count("mode:" + in.Mode)
+	switch {
+	case obs.Stuck:
+		col.Count("outcome:goroutines-left-blocked")
+	case obs.Panic:
+		col.Count("outcome:panic")
+	case obs.Win != nil || (len(obs.Served) > 0 && obs.Served[0] != nil):
+		col.Count("outcome:winner")
+	default:
+		col.Count("outcome:no-winner")
+	}
+	if len(obs.Providers) > 1 {
+		col.Count("outcome:several-providers")
+	}
+	id := col.NextID()
+	col.Add(Case{Term: term(id, in, obs), Key: inputKey(in), Nontrivial: nontrivial, Tags: tg,
+		Sample: map[string]any{"input": in, "observed": obs}})
 }
